@@ -114,8 +114,13 @@ def render(params: list, rng: random.Random, style: str) -> str:
                                          '*** Section ***', 'no comma on this line']))
             lines.append(f'{name}, {rest}')
         elif style == 'duplicate':
-            if rng.random() < 0.3 and not is_addon(name):
+            x = rng.random()
+            if x < 0.3 and not is_addon(name):
+                if x < 0.1:
+                    lines.append(f'{name}, {rest}')            # the governing line stands twice, with a different occurrence in between
                 lines.append(f'{name}, {perturb(rest)}')       # an earlier, different occurrence: the last one governs
+                if 0.1 <= x < 0.15:
+                    lines.append(f'{name}, {perturb(perturb(rest))}')
             lines.append(f'{name}, {rest}')
         else:
             raise ValueError(style)
